@@ -285,3 +285,16 @@ func specRecords(es []SymbolEntry, k int) uint32 {
 //@ final[text@C09] using(hdrs, text) forall(0, len(ctx.MachineCode), func(i int) bool { return finalBytes[140+i] == ctx.MachineCode[i] })
 //@ ensures[once@C19+C08] result0 == nil ==> vcWriteCount() == 1
 //@ assigns *
+
+// Thin safety-only contracts (C13): these functions get one obligation per panic site; callers keep
+// using their bodies (option inline).
+
+//@ func (*CoffFormat).generateHeader
+//@ props C13
+//@ option inline
+//@ ensures[safe] true
+
+//@ func (*CoffFormat).generateSectionHeaders
+//@ props C13
+//@ option inline
+//@ ensures[safe] true
